@@ -78,7 +78,8 @@ FUNCS = {
         ensures=[ONE_EVENT, BUFFERED,
                  ('is_sess_term', 'last(ghost.trace).kind == EV_TERM and last(ghost.trace).reason == reason and '
                                   'last(ghost.trace).flags == ite(is_reply, 1, 0)'),
-                 ('terminating', 'self._in_term and ghost.term_sent')] + kept('ch', 'si') + NONSEG + TIMERS,
+                 ('terminating', 'self._in_term and ghost.term_sent and eqv(self._state, "ending")')]
+        + kept('ch', 'si') + NONSEG + TIMERS,
     ),
     'tcpcl.session:Messenger.send_reject': dict(
         self=CH, params={'reason': 'Opt[Int]', 'pkt': 'Pkt[MessageHead]'}, props=['C04', 'C17'],
